@@ -4308,6 +4308,18 @@ async fn handle_connected_state(
                                     _ = &mut rtcp_loop => {
                                         if let Some(inner) = inner_weak.upgrade() {
                                             propagate_sctp_close_reason(&inner);
+                                            // The transport loops are gone (peer SCTP
+                                            // ABORT/SHUTDOWN, association failure ...) and
+                                            // nothing will restart them while ICE stays up:
+                                            // do not keep reporting Connected.
+                                            let _ = inner.peer_state.send_if_modified(|s| {
+                                                if *s == PeerConnectionState::Connected {
+                                                    *s = PeerConnectionState::Disconnected;
+                                                    true
+                                                } else {
+                                                    false
+                                                }
+                                            });
                                         }
                                         break;
                                     }
@@ -4400,6 +4412,18 @@ async fn handle_connected_state(
                                     _ = &mut rtcp_loop => {
                                         if let Some(inner) = inner_weak.upgrade() {
                                             propagate_sctp_close_reason(&inner);
+                                            // The transport loops are gone (peer SCTP
+                                            // ABORT/SHUTDOWN, association failure ...) and
+                                            // nothing will restart them while ICE stays up:
+                                            // do not keep reporting Connected.
+                                            let _ = inner.peer_state.send_if_modified(|s| {
+                                                if *s == PeerConnectionState::Connected {
+                                                    *s = PeerConnectionState::Disconnected;
+                                                    true
+                                                } else {
+                                                    false
+                                                }
+                                            });
                                         }
                                         break;
                                     }
